@@ -46,7 +46,9 @@ def digest(v):
             return 'A2[' + ';'.join(','.join(_n(x) for x in row) for row in v.tolist()) + ']'
         return 'A[' + ','.join(_n(x) for x in v.tolist()) + ']'
     if isinstance(v, tuple):
-        return 'T' + _n(tuple(v))
+        # a named tuple is a named tuple on both sides of the pool boundary: the task sees the same field names
+        fields = getattr(v, '_fields', None)
+        return 'T' + _n(tuple(v)) + ('' if fields is None else '{' + ','.join(str(x) for x in fields) + '}')
     return 'E' + _n(v)
 
 
